@@ -357,6 +357,33 @@ pub fn window_edge_streams(rng: &mut Rng) -> Vec<(String, Vec<u8>)> {
     v
 }
 
+/// References as far back as DEFLATE allows (32768, and 32700) right behind the positions at which the
+/// hash tables are renormalised (Positions.tla: the first time at plaintext position 0xfe08 - 8, then
+/// every 0x7e00 bytes): what a renormalisation drops must lie further back than that.  Written by hand
+/// (literals over a 64-letter alphabet, one reference to a 12-byte marker).
+pub fn reshift_edge_streams(rng: &mut Rng, all: bool) -> Vec<(String, Vec<u8>)> {
+    let mut v = Vec::new();
+    for k in 0..2usize {
+        let p0 = 0xfe08 - 8 + k * 0x7e00;
+        for (delta, dist) in [(1usize, 32768usize), (200, 32768), (0, 32700), (100, 32767)] {
+            if !all && !(delta == 1 || delta == 200) { continue; }
+            let c = p0 + delta;
+            let mlen = 12usize;
+            let mut text: Vec<u8> = (0..c + mlen + 40).map(|_| b'0' + rng.below(64) as u8).collect();
+            let marker: Vec<u8> = (0..mlen).map(|i| b'A' + ((i * 5 + k + delta) % 26) as u8 + if i % 2 == 1 { 32 } else { 0 }).collect();
+            let a = c - dist;
+            text[a..a + mlen].copy_from_slice(&marker);
+            text[c..c + mlen].copy_from_slice(&marker);
+            text[a - 1] = b'#'; text[c - 1] = b'%'; text[a + mlen] = b'!'; text[c + mlen] = b'?';
+            let mut toks: Vec<(usize, usize)> = (0..c).map(|_| (1, 0)).collect();
+            toks.push((mlen, dist));
+            toks.extend((0..text.len() - c - mlen).map(|_| (1usize, 0usize)));
+            v.push((format!("reshift-edge/p{}+{}/d{}", p0, delta, dist), encode_fixed(&text, &toks, 30000)));
+        }
+    }
+    v
+}
+
 /// Blocks with more tokens than fit 16 bits (and, once, 20 bits): literal-only fixed Huffman blocks
 /// of 70000 tokens, twice in a row, 100 then 65636 (equal modulo 2^16), and one of 2^20 + 2^16 + 4
 pub fn big_block_streams(rng: &mut Rng, with_million: bool) -> Vec<(String, Vec<u8>)> {
